@@ -75,29 +75,5 @@ fn list_limits_body() {
 #[cfg(kani)] #[kani::proof] #[kani::unwind(5)] fn list_limits() { list_limits_body() }
 #[cfg(all(not(kani), psc_verif_replay))] #[test] fn replay_list_limits() { vk::load_replay(); list_limits_body() }
 
-fn map_depth_body() {
-    let bytes: [u8; 3] = [vk::any_u8(), vk::any_u8(), vk::any_u8()];
-    vk::assume(bytes[0] == 0 || bytes[0] == 4);
-    let n = (bytes[0] >> 2) as usize;
-    let d = vk::any_u32();
-    let mut a: &[u8] = &bytes[..1 + 2 * n];
-    let r = <BTreeMap<u8, u8>>::decode_with_depth_limit(d, &mut a);
-    if d >= 1 { assert!(matches!(&r, Ok(l) if l.len() == n) && a.len() == 0, "limit covers the single nesting level of a map but decoding failed or differs"); }
-    if d == 0 { assert!(r.is_err(), "a map decoded under depth limit 0"); }
-}
-#[cfg(kani)] #[kani::proof] #[kani::unwind(8)] fn map_depth() { map_depth_body() }
-#[cfg(all(not(kani), psc_verif_replay))] #[test] fn replay_map_depth() { vk::load_replay(); map_depth_body() }
-
-fn map_mem_body() {
-    let bytes: [u8; 3] = [vk::any_u8(), vk::any_u8(), vk::any_u8()];
-    vk::assume(bytes[0] == 0 || bytes[0] == 4);
-    let n = (bytes[0] >> 2) as usize;
-    let m = vk::any_usize();
-    let mut b: &[u8] = &bytes[..1 + 2 * n];
-    let r2 = <BTreeMap<u8, u8>>::decode_with_mem_limit(&mut b, m);
-    if let Ok(l) = &r2 { assert!(l.len() == n && (n == 0 || m > n), "a map decoded under a limit not exceeding half its entry bytes"); }
-    if m > 4096 { assert!(r2.is_ok(), "a generous memory limit rejected a one-entry map"); }
-    if n == 0 && m > 0 { assert!(r2.is_ok(), "an empty map holds no heap data and must decode under every positive limit"); }
-}
-#[cfg(kani)] #[kani::proof] #[kani::unwind(8)] fn map_mem() { map_mem_body() }
-#[cfg(all(not(kani), psc_verif_replay))] #[test] fn replay_map_mem() { vk::load_replay(); map_mem_body() }
+// (BTreeMap<u8,u8> limit harnesses were tried: a single limited decode of a one-entry map exceeds the CBMC budget of 900 s;
+// the map/set sites are covered by list_limits' sibling code path only in so far as they share the macro-free structure -- not decided)
